@@ -610,6 +610,42 @@ def battery(res, robj, specs, truth, T_in, cap, key0, first=None,
                           'differ from the nominal peak profile',
                           dict(key0, loc=loc, n_in=a, n_out=o),
                           {'row': row.tolist(), 'nominal': nom.tolist()})
+        # the same, with a generated table REWRITTEN IN PLACE to all ones
+        # (same path as the analysis before): what a path held earlier in
+        # this process must not stand in for what the file holds now
+        gen_paths = sorted(set(
+            sp['path'] for d_ in specs.values() for sp in d_.values()
+            if sp.get('path') and not sp.get('builtin')
+            and os.path.isfile(str(sp.get('path')))))
+        if gen_paths:
+            keep = {}
+            try:
+                uni = open(upath).read()
+                for gp in gen_paths:
+                    keep[gp] = open(gp).read()
+                    with open(gp, 'w') as f:
+                        f.write(uni)
+                out, calls = analyze_cfg()
+                rows = rows_of(out, calls)
+                for k3, cand in chosen.items():
+                    tn, loc, aid = k3
+                    sp = specs[tn][loc]
+                    if sp.get('builtin') or sp.get('path') not in keep \
+                            or k3 not in rows:
+                        continue
+                    row = rows[k3][0]
+                    nom = np.array(cand[:len(row)])
+                    res.close('E3b_table_rewritten_in_place_is_read_again',
+                              float(np.max(np.abs(row - nom))),
+                              float(np.max(np.abs(nom))), 1e-13,
+                              'table file rewritten to all ones at the same '
+                              'path, but the analysis still gives other than '
+                              'the nominal profile', dict(key0, loc=loc),
+                              {'row': row.tolist(), 'nominal': nom.tolist()})
+            finally:
+                for gp, txt in keep.items():
+                    with open(gp, 'w') as f:
+                        f.write(txt)
     return info
 
 
